@@ -11,7 +11,7 @@ JAR = '/opt/veriftools/tla/tla2tools.jar:/opt/veriftools/tla/CommunityModules-de
 
 
 # constants every USim configuration needs; a config only lists what it uses
-DEFAULTS = dict(NQueues=0, NChans=0)
+DEFAULTS = dict(NQueues=0, NChans=0, CondSel='none')
 
 
 def tla_value(v):
@@ -22,7 +22,7 @@ def tla_value(v):
     if isinstance(v, str):
         return '"%s"' % v
     if isinstance(v, (set, frozenset)):
-        return '{' + ', '.join(tla_value(x) for x in sorted(v)) + '}'
+        return '{' + ', '.join(sorted(tla_value(x) for x in v)) + '}'
     if isinstance(v, (list, tuple)):
         return '<<' + ', '.join(tla_value(x) for x in v) + '>>'
     raise TypeError(v)
